@@ -3,6 +3,7 @@ package main
 import (
 	"fmt"
 	"go/constant"
+	"go/types"
 	"strings"
 
 	"golang.org/x/tools/go/ssa"
@@ -179,4 +180,493 @@ func ruleSortAlwaysSorts(c *Ctx) {
 		ok, why = false, "no path with keys present"
 	}
 	c.Check(ok, "c05.sort-always", "Sort", c.P.Pos(f.Pos()), fmt.Sprintf("%d paths with keys present each call sort.Slice once", n), why)
+}
+
+func init() {
+	register("C01", ruleExprDispatch, ruleLiteralTable)
+	register("C02", ruleExprDispatch, ruleLiteralTable, ruleStarCopiesAll)
+	register("C03", ruleAggrArgReader, ruleC09CacheKey)
+	register("C01", ruleC09CacheKey)
+	register("C02", ruleC09CacheKey, ruleC12UnwrapTable)
+}
+
+// ruleExprDispatch: the expression dispatcher routes every AST node kind to the evaluator of that kind.
+func ruleExprDispatch(c *Ctx) {
+	c.Doc("expr.dispatch", "expression dispatcher (Expr): for every AST node type of its type switch the arm forwards (query, current row, the asserted node, options) to the evaluator whose parameter has exactly that node type and returns its results; NULL literals yield (nil, nil), boolean literals their value; a column reference yields the ColumnName `qualifier.name` (or `name`), quoted when the hard-coded option is set; an unknown node is an error")
+	f := c.P.Func(modPath, "Expr")
+	if f == nil {
+		c.Unknown("expr.dispatch", "Expr", "-", "anchor lost")
+		return
+	}
+	c.Fn("Expr")
+	paths, err := WalkFunc(f, WalkCfg{MaxVisits: 2, MaxPaths: 8000})
+	if err != nil {
+		c.Unknown("expr.dispatch", "Expr", c.P.Pos(f.Pos()), err.Error())
+		return
+	}
+	eP, qP, rowP := "", "", ""
+	for _, pa := range f.Params {
+		switch shortType(pa.Type()) {
+		case "sqlparser.Expr":
+			eP = pa.Name()
+		case "*Query":
+			qP = pa.Name()
+		case "Map":
+			rowP = pa.Name()
+		}
+	}
+	arms := map[string]string{}
+	for _, p := range paths {
+		if p.Exit != "return" || len(p.Ret) != 2 {
+			continue
+		}
+		kind := ""
+		for _, k := range p.Order {
+			kt := p.KeyTerm[k]
+			if kt != nil && kt.Op == "ext" && kt.Name == "1" && kt.Args[0].Op == "assertok" && kt.Args[0].Args[0].Op == "param" && kt.Args[0].Args[0].Name == eP {
+				if v, _ := p.Assumed(k); v && kind == "" {
+					kind = kt.Args[0].Name
+				}
+			}
+		}
+		if kind == "" {
+			if p.Ret[1].Nil {
+				arms["default"] = "an unknown node kind does not yield an error"
+			} else if arms["default"] == "" {
+				arms["default"] = "ok"
+			}
+			continue
+		}
+		verdict := "ok"
+		r := ext0(p.Ret[0].T)
+		switch kind {
+		case "*sqlparser.NullVal":
+			if !p.Ret[0].Nil || !p.Ret[1].Nil {
+				verdict = "a NULL literal yields " + avString(p.Ret[0])
+			}
+		case "sqlparser.BoolVal":
+			if !strings.Contains(termStr(p.Ret[0].T), "assertok[sqlparser.BoolVal](p:"+eP+")") {
+				verdict = "a boolean literal yields " + avString(p.Ret[0])
+			}
+		case "*sqlparser.ColName":
+			// error path of BuildColumnName or the ColumnName value
+			if !p.Ret[1].Nil {
+				break
+			}
+			s := termStr(p.Ret[0].T)
+			if !strings.Contains(s, "BuildColumnName(") {
+				verdict = "a column reference yields " + s + ", not a ColumnName built from the node's own name"
+			}
+		default:
+			if r == nil || r.Op != "call" {
+				verdict = "the arm returns " + avString(p.Ret[0]) + " instead of its evaluator's results"
+				break
+			}
+			call, isCall := r.V.(*ssa.Call)
+			if !isCall || call.Common().StaticCallee() == nil {
+				verdict = "the arm calls an unresolved evaluator"
+				break
+			}
+			cal := call.Common().StaticCallee()
+			// the evaluator's node parameter type is the asserted type (value or pointer form)
+			okType := false
+			for _, pa := range cal.Params {
+				pt := shortType(pa.Type())
+				if pt == kind || pt == "*"+kind || "*"+pt == kind {
+					okType = true
+				}
+			}
+			if !okType {
+				verdict = "a " + kind + " node is evaluated by " + funcName(cal) + ", which does not take that node type"
+			}
+			a := r.Args
+			nodeOK := len(a) >= 3 && strings.Contains(a[2].String(), "p:"+eP)
+			if len(a) >= 3 && !nodeOK && len(call.Call.Args) >= 3 {
+				// a value-typed node spilled to a cell: the cell's only store is the asserted node
+				if al, isAl := call.Call.Args[2].(*ssa.Alloc); isAl && al.Referrers() != nil {
+					n, good := 0, true
+					for _, r := range *al.Referrers() {
+						if st, isSt := r.(*ssa.Store); isSt && st.Addr == ssa.Value(al) {
+							n++
+							if !strings.Contains(NewTB().Of(st.Val).String(), "p:"+eP) {
+								good = false
+							}
+						}
+					}
+					nodeOK = n == 1 && good
+				}
+			}
+			if len(a) < 3 || !(a[0].Op == "param" && a[0].Name == qP) || !(a[1].Op == "param" && a[1].Name == rowP) || !nodeOK {
+				verdict = "the evaluator does not receive (query, current row, the node): " + r.String()
+			}
+			// both results forwarded
+			if x := p.Ret[1].T; x == nil || x.Op != "ext" || x.Args[0].V != r.V {
+				verdict = "the evaluator's error is not forwarded"
+			}
+		}
+		if prev, has := arms[kind]; !has || prev == "ok" {
+			arms[kind] = verdict
+		}
+	}
+	want := []string{"*sqlparser.AndExpr", "*sqlparser.OrExpr", "*sqlparser.NotExpr", "*sqlparser.ComparisonExpr", "*sqlparser.BetweenExpr", "*sqlparser.IsExpr", "*sqlparser.BinaryExpr", "*sqlparser.UnaryExpr", "*sqlparser.Literal", "*sqlparser.NullVal", "sqlparser.BoolVal", "*sqlparser.ColName", "*sqlparser.CaseExpr", "*sqlparser.Subquery", "*sqlparser.ExistsExpr", "*sqlparser.FuncExpr", "sqlparser.AggrFunc", "sqlparser.ValTuple"}
+	for _, k := range want {
+		v, has := arms[k]
+		c.Check(has && v == "ok", "expr.dispatch", "Expr/"+k, c.P.Pos(f.Pos()), "routed to its own evaluator", func() string {
+			if !has {
+				return "the dispatcher has no arm for " + k
+			}
+			return v
+		}())
+	}
+	c.Check(arms["default"] == "ok", "expr.dispatch", "Expr/default", c.P.Pos(f.Pos()), "unknown nodes are errors", arms["default"])
+}
+
+// ruleLiteralTable: literals.
+func ruleLiteralTable(c *Ctx) {
+	c.Doc("literal.table", "literal evaluation: integer, decimal and float literals yield strconv.ParseFloat of the literal's own text (64 bit), string literals yield the literal's own text wrapped as NeutalString; other literal kinds are errors")
+	f := c.theFunc("literal evaluation", "*sqlparser.Literal", "LiteralExpr")
+	if f == nil {
+		c.Unknown("literal.table", "LiteralExpr", "-", "anchor lost")
+		return
+	}
+	consts := c.P.enumConsts(sqlp, "ValType")
+	atoms := []Atom{{Name: "typ", Dom: int64Dom(sortedKeys(consts)...), Match: func(t *Term) bool {
+		return t.Op == "ext" && t.Name == "0" && t.Args[0].Op == "call" && t.Args[0].Name == "BuildLiteral"
+	}}}
+	tb := BuildTable(f, atoms, true)
+	if tb.Err != nil {
+		c.Unknown("literal.table", c.P.funcKey(f), c.P.Pos(f.Pos()), tb.Err.Error())
+		return
+	}
+	res := map[string]string{}
+	for _, p := range tb.Paths {
+		if p.Exit != "return" || len(p.Ret) != 2 {
+			continue
+		}
+		tv, has := tb.namesOnPath(p)["typ"]
+		if !has {
+			continue
+		}
+		iv, _ := constant.Int64Val(tv)
+		name := consts[iv]
+		s := termStr(p.Ret[0].T)
+		verdict := "ok"
+		switch name {
+		case "IntVal", "FloatVal", "DecimalVal":
+			if p.Ret[1].Nil && !(strings.HasPrefix(s, "strconv.ParseFloat(BuildLiteral(") && strings.Contains(s, "#1, c:64)#0")) {
+				verdict = "a numeric literal yields " + s
+			}
+		case "StrVal":
+			if !p.Ret[1].Nil || !(strings.HasPrefix(s, "BuildLiteral(") && strings.HasSuffix(s, "#1")) {
+				verdict = "a string literal yields " + s + " (error=" + avString(p.Ret[1]) + ")"
+			}
+		default:
+			if p.Ret[1].Nil {
+				verdict = "a " + name + " literal is accepted: " + s
+			}
+		}
+		if prev, ok := res[name]; !ok || prev == "ok" {
+			res[name] = verdict
+		}
+	}
+	for _, n := range []string{"IntVal", "FloatVal", "DecimalVal", "StrVal"} {
+		v, has := res[n]
+		c.Check(has && v == "ok", "literal.table", c.P.funcKey(f)+"/"+n, c.P.Pos(f.Pos()), "reference value of the literal's own text", func() string {
+			if !has {
+				return "no arm for " + n
+			}
+			return v
+		}())
+	}
+	// string literal boxed as NeutalString (static type of the returned value)
+	okBox := false
+	allInstrs(f, func(_ *ssa.BasicBlock, in ssa.Instruction) {
+		if mi, ok := in.(*ssa.MakeInterface); ok && shortType(mi.X.Type()) == "NeutalString" {
+			okBox = true
+		}
+	})
+	c.Check(okBox, "literal.table", c.P.funcKey(f)+"/StrVal-wrapper", c.P.Pos(f.Pos()), "string literals are NeutalString (so a literal is never mistaken for a column name)", "string literals are not wrapped as NeutalString")
+}
+
+// ruleStarCopiesAll: `*` copies every key of the current row except the marker.
+func ruleStarCopiesAll(c *Ctx) {
+	c.Doc("c02.star-all-keys", "star projection: the copy loop ranges over the current row parameter and stores value under key into the output map for every entry; the only condition on the key is the `<-` exclusion")
+	f := c.theFunc("projection", "*sqlparser.SelectExprs", "SelectExpr")
+	if f == nil {
+		c.Unknown("c02.star-all-keys", "SelectExpr", "-", "anchor lost")
+		return
+	}
+	row := paramNameOfType(f, "Map")
+	n, bad := 0, ""
+	allInstrs(f, func(b *ssa.BasicBlock, in ssa.Instruction) {
+		mu, ok := in.(*ssa.MapUpdate)
+		if !ok {
+			return
+		}
+		ex, ok := mu.Key.(*ssa.Extract)
+		if !ok || ex.Index != 1 {
+			return
+		}
+		nx, ok := ex.Tuple.(*ssa.Next)
+		if !ok {
+			return
+		}
+		if p, isP := nx.Iter.(*ssa.Range).X.(*ssa.Parameter); !isP || p.Name() != row {
+			return
+		}
+		n++
+		// value is the same iteration's value
+		if vx, isEx := mu.Value.(*ssa.Extract); !isEx || vx.Tuple != ssa.Value(nx) || vx.Index != 2 {
+			bad = "the star copy stores " + NewTB().Of(mu.Value).String() + " instead of the entry's own value"
+		}
+		for _, fc := range relFacts(factsAt(b)) {
+			if fc.x == ssa.Value(ex) {
+				if s, isS := constString(fc.y); !(isS && s == "<-" && fc.r == relNE) {
+					bad = "the star copy skips entries by a condition on the key other than the `<-` exclusion"
+				}
+			}
+			if vx, isEx := mu.Value.(*ssa.Extract); isEx && fc.x == ssa.Value(vx) {
+				bad = "the star copy skips entries by a condition on the value"
+			}
+		}
+	})
+	c.Check(n == 1 && bad == "", "c02.star-all-keys", c.P.funcKey(f), c.P.Pos(f.Pos()), "every entry of the row is copied (marker excluded)", func() string {
+		if bad != "" {
+			return bad
+		}
+		return fmt.Sprintf("%d star copy loops found", n)
+	}())
+}
+
+// ruleAggrArgReader: aggregate arguments are read from the group's member rows.
+func ruleAggrArgReader(c *Ctx) {
+	c.Doc("c03.arg-reader", "aggregate argument reader: a column argument is read, by its own name, from the member rows under the row's \"*\" entry when present (the whole slice, so one value per member in member order), otherwise from the row; other arguments are the unwrapped evaluation of the argument; arguments are appended in order")
+	f := c.P.Func(modPath, "AggrFuncArgReader")
+	if f == nil {
+		c.Unknown("c03.arg-reader", "AggrFuncArgReader", "-", "anchor lost")
+		return
+	}
+	c.Fn("AggrFuncArgReader")
+	row := paramNameOfType(f, "Map")
+	loops := rangeLoops(f)
+	if len(loops) != 1 {
+		c.Unknown("c03.arg-reader", "AggrFuncArgReader", c.P.Pos(f.Pos()), fmt.Sprintf("%d loops (one over the arguments expected)", len(loops)))
+		return
+	}
+	lp := loops[0]
+	paths, err := WalkFrom(f, lp.body, lp.header, WalkCfg{StopAt: func(b *ssa.BasicBlock) bool { return b == lp.header }, MaxVisits: 1})
+	if err != nil {
+		c.Unknown("c03.arg-reader", "AggrFuncArgReader", c.P.Pos(f.Pos()), err.Error())
+		return
+	}
+	var why []string
+	nCol, nOther := 0, 0
+	for _, p := range paths {
+		if p.Exit != "stop" {
+			continue
+		}
+		isCol, hasStar, starIsSlice := false, false, false
+		for k, v := range p.Asg {
+			kt := p.KeyTerm[k]
+			if kt == nil || kt.Op != "ext" || kt.Name != "1" {
+				continue
+			}
+			switch {
+			case kt.Args[0].Op == "assertok" && kt.Args[0].Name == "ColumnName":
+				isCol = isTrueC(v)
+			case kt.Args[0].Op == "lookupok" && kt.Args[0].Args[1].Name == `"*"`:
+				hasStar = isTrueC(v)
+			case kt.Args[0].Op == "assertok" && kt.Args[0].Name == "[]any":
+				starIsSlice = isTrueC(v)
+			}
+		}
+		apps := 0
+		var arg *Term
+		for _, e := range p.Effects {
+			if isAppendOf(e) {
+				apps++
+				arg = e.Args[1]
+			}
+		}
+		if apps != 1 {
+			why = append(why, fmt.Sprintf("an argument is appended %d times", apps))
+			continue
+		}
+		v := arg
+		if v.Op == "varargs" && len(v.Args) == 1 {
+			v = v.Args[0]
+		}
+		if isCol {
+			nCol++
+			x := ext0(v)
+			a, ok := callArgs(x, "ExecReader")
+			if x == nil || !ok {
+				why = append(why, "a column argument is not read with the selector reader: "+v.String())
+				continue
+			}
+			if !strings.Contains(a[1].String(), "assertok[ColumnName]") {
+				why = append(why, "the column is read by "+a[1].String()+", not by its own name")
+			}
+			src := a[0].String()
+			if hasStar && starIsSlice {
+				if !strings.Contains(src, `lookupok:p:`+row+`[c:"*"]`) {
+					why = append(why, "with member rows present the column is read from "+src+", not from the members")
+				}
+			} else if !strings.Contains(src, "p:"+row) {
+				why = append(why, "without member rows the column is read from "+src+", not from the row")
+			}
+		} else {
+			nOther++
+			x := ext0(v)
+			if _, ok := callArgs(x, "ValueOf"); x == nil || !ok {
+				why = append(why, "a non-column argument is appended without unwrapping: "+v.String())
+			}
+		}
+	}
+	if nCol == 0 || nOther == 0 {
+		why = append(why, fmt.Sprintf("paths: column=%d other=%d", nCol, nOther))
+	}
+	c.Check(len(why) == 0, "c03.arg-reader", "AggrFuncArgReader", c.P.Pos(f.Pos()), fmt.Sprintf("column args from the members (%d paths), others unwrapped (%d paths), one append each", nCol, nOther), strings.Join(uniq(why), "; "))
+}
+
+func init() {
+	register("C01", ruleDefWriters)
+	register("C05", ruleDefWriters)
+	register("C06", ruleDefWriters)
+}
+
+// defWriters: the functions that may store each clause-definition field of Query (frozen from
+// the tree as read; one reason per writer).
+var defWriters = map[string]map[string]string{
+	"whereDefinition":   {"BuildSelect": "from the statement's WHERE", "CopyQuery": "copied for re-evaluation"},
+	"havingDefinition":  {"BuildSelect": "from the statement's HAVING", "CopyQuery": "copied for re-evaluation"},
+	"selectDefinition":  {"BuildSelect": "from the statement's select list", "BuildUnion": "star over the concatenated branches", "CopyQuery": "copied for re-evaluation"},
+	"distinct":          {"BuildSelect": "from the statement's DISTINCT", "BuildUnion": "UNION vs UNION ALL"},
+	"limitDefinition":   {"BuildLimit": "from the statement's LIMIT", "New": "unset (-1)", "Prepare": "unset (-1)", "CopyQuery": "copied for re-evaluation"},
+	"offsetDefinition":  {"BuildLimit": "from the statement's OFFSET", "New": "unset (-1)", "Prepare": "unset (-1)", "CopyQuery": "copied for re-evaluation"},
+	"orderByDefinition": {"BuildOrder": "from the statement's ORDER BY", "New": "empty", "Prepare": "empty", "CopyQuery": "copied for re-evaluation"},
+	"groupDefinition":   {"New": "empty", "Prepare": "empty", "CopyQuery": "copied for re-evaluation"},
+}
+
+func ruleDefWriters(c *Ctx) {
+	c.Doc("def.writers", "who may write: the clause-definition fields of Query (where/having/select/group/orderBy definitions, distinct, limit and offset) are stored only by the builder of that clause from the statement's own clause, by the constructors (unset values) and by CopyQuery; no evaluator, branch helper or other builder assigns them (a clause of one statement never leaks into another query)")
+	seen := map[string]int{}
+	for _, f := range c.P.ModFuncs {
+		if len(f.TypeArgs()) > 0 {
+			continue
+		}
+		root := f
+		for root.Parent() != nil {
+			root = root.Parent()
+		}
+		allInstrs(f, func(b *ssa.BasicBlock, in ssa.Instruction) {
+			st, ok := in.(*ssa.Store)
+			if !ok {
+				return
+			}
+			fa, ok := st.Addr.(*ssa.FieldAddr)
+			if !ok {
+				return
+			}
+			pt, ok := fa.X.Type().Underlying().(*types.Pointer)
+			if !ok || shortType(pt.Elem()) != "Query" {
+				return
+			}
+			name := fieldName(pt.Elem(), fa.Field)
+			allowed, tracked := defWriters[name]
+			if !tracked {
+				return
+			}
+			w := root.Name()
+			_, ok = allowed[w]
+			seen[name]++
+			c.Check(ok, "def.writers", "Query."+name+" <- "+c.P.funcKey(f), c.P.Pos(st.Pos()), "writer listed: "+allowed[w], "Query."+name+" is assigned in "+c.P.funcKey(f)+", which is not the builder of that clause, a constructor or CopyQuery")
+		})
+	}
+	for name := range defWriters {
+		if seen[name] == 0 {
+			c.Unknown("def.writers", "Query."+name, "-", "anchor lost: no store to the field found")
+		}
+	}
+}
+
+func init() {
+	register("C01", ruleExecKeptFresh)
+	register("C02", ruleExecKeptFresh)
+	register("C03", ruleExecKeptFresh)
+}
+
+// ruleExecKeptFresh: the kept rows are collected in storage of their own.
+func ruleExecKeptFresh(c *Ctx) {
+	c.Doc("exec.kept-fresh", "(*Query).exec collects the rows that pass WHERE into storage allocated by this call: every append inside the scan of query.from grows a slice whose origin (through loop phis and earlier appends) is a fresh make/empty literal — never query.from or another field of the query, so the source rows are not overwritten while (or after) they are scanned and a second evaluation of the same query sees the same source")
+	exec := c.P.Method(modPath, "Query", "exec")
+	if exec == nil {
+		c.Unknown("exec.kept-fresh", "(*Query).exec", "-", "anchor lost")
+		return
+	}
+	lp := findRangeLoopOverField(exec, "from")
+	if lp == nil {
+		c.Unknown("exec.kept-fresh", "(*Query).exec", c.P.Pos(exec.Pos()), "anchor lost: no loop over query.from")
+		return
+	}
+	n := 0
+	for _, b := range exec.Blocks {
+		if !inNaturalLoop(lp.header, b) {
+			continue
+		}
+		for _, in := range b.Instrs {
+			call, ok := in.(*ssa.Call)
+			if !ok {
+				continue
+			}
+			if bi, isB := call.Call.Value.(*ssa.Builtin); !isB || bi.Name() != "append" {
+				continue
+			}
+			n++
+			bad := ""
+			seen := map[ssa.Value]bool{}
+			var root func(v ssa.Value)
+			root = func(v ssa.Value) {
+				if seen[v] || bad != "" {
+					return
+				}
+				seen[v] = true
+				switch x := v.(type) {
+				case *ssa.Phi:
+					for _, e := range x.Edges {
+						root(e)
+					}
+				case *ssa.Call:
+					if bi, isB := x.Call.Value.(*ssa.Builtin); isB && bi.Name() == "append" {
+						root(x.Call.Args[0])
+						return
+					}
+					bad = NewTB().Of(v).String()
+				case *ssa.MakeSlice:
+				case *ssa.Const:
+					if !x.IsNil() {
+						bad = x.String()
+					}
+				case *ssa.Slice:
+					if _, isAl := x.X.(*ssa.Alloc); isAl {
+						return
+					}
+					bad = NewTB().Of(v).String()
+				default:
+					bad = NewTB().Of(v).String()
+				}
+			}
+			root(call.Call.Args[0])
+			c.Check(bad == "", "exec.kept-fresh", fmt.Sprintf("(*Query).exec/append#%d", n), c.P.Pos(call.Pos()), "grows storage made by this call", "the kept rows are appended onto "+bad+", which is not storage made by this call")
+		}
+	}
+	if n == 0 {
+		c.Unknown("exec.kept-fresh", "(*Query).exec", c.P.Pos(exec.Pos()), "no append inside the scan loop")
+	}
+}
+
+// ORDER BY compares projected values with compare.Compare and recognises NULL as the untyped nil:
+// the value ordering (C15 family) and the unwrapper's NULL handling are necessary for C05 as well.
+func init() {
+	register("C05", ruleC15Range, ruleC15Trichotomy, ruleC15ExactDomain, ruleC15Dispatch, ruleC12UnwrapTable)
 }
